@@ -559,6 +559,55 @@ impl RealState {
             ["cherries"] => res_usize(t.cherries()),
             ["colless"] => res_usize(t.colless()),
             ["sackin"] => res_usize(t.sackin()),
+            // ---- queries added with Arena/QueryMore.lean ----
+            ["leaf_names"] => format!("ok {}", t.get_leaf_names().iter().map(enc_opt_str).collect::<Vec<_>>().join(" ")),
+            ["unique_tips"] => res_bool(t.has_unique_tip_names()),
+            ["node", x] => id(x).map_or("bad-op".into(), |x| match t.get(&x) {
+                Ok(n) => format!("ok {} {} {}", n.is_tip() as u8, n.is_root() as u8, n.get_depth()),
+                Err(e) => format!("err {}", err_kind(&e)),
+            }),
+            ["child_edge", p, c] => match (id(p), id(c)) {
+                (Some(p), Some(c)) => match t.get(&p) {
+                    Ok(n) => match n.get_child_edge(&c) {
+                        None => "ok -".into(),
+                        Some(v) => scaled(v).map_or(format!("ok inexact:{v}"), |k| format!("ok {k}")),
+                    },
+                    Err(e) => format!("err {}", err_kind(&e)),
+                },
+                _ => "bad-op".into(),
+            },
+            // the normalised indices are floats in the crate; the answer compared with the model is the EXACT rational computed here
+            // from the crate's own integer index and leaf count (independently of the model), and the crate's float must agree
+            // with it to 1e-12 (relative) — otherwise the answer says so and the comparison fails
+            ["sackin_yule"] => match (t.sackin(), t.sackin_yule()) {
+                (Ok(s), Ok(v)) => {
+                    let n = t.n_leaves() as i128;
+                    match harmonic_from_2(n) {
+                        None => "ok skipped-too-many-leaves".into(),
+                        Some((hn, hd)) => {
+                            // (s - 2 n H) / n = (s*hd - 2 n hn) / (n hd)
+                            let (num, den) = reduce(s as i128 * hd - 2 * n * hn, n * hd);
+                            let exact = num as f64 / den as f64;
+                            if (v - exact).abs() <= 1e-12 * exact.abs().max(1.0) { format!("ok {num}/{den}") } else { format!("ok float-differs:{v}-vs-{num}/{den}") }
+                        }
+                    }
+                }
+                (Err(e), Err(_)) => format!("err {}", err_kind(&e)),
+                (a, b) => format!("ok refusals-differ:{:?}-vs-{:?}", a.is_ok(), b.is_ok()),
+            },
+            ["sackin_pda_sq"] | ["colless_pda_sq"] => {
+                let (i, v) = if q[0] == "sackin_pda_sq" { (t.sackin(), t.sackin_pda()) } else { (t.colless(), t.colless_pda()) };
+                match (i, v) {
+                    (Ok(i), Ok(v)) => {
+                        let n = t.n_leaves() as i128;
+                        let (num, den) = reduce((i as i128) * (i as i128), n * n * n);
+                        let exact = num as f64 / den as f64;
+                        if (v * v - exact).abs() <= 1e-12 * exact.abs().max(1.0) && v >= 0.0 { format!("ok {num}/{den}") } else { format!("ok float-differs:{v}^2-vs-{num}/{den}") }
+                    }
+                    (Err(e), Err(_)) => format!("err {}", err_kind(&e)),
+                    (a, b) => format!("ok refusals-differ:{:?}-vs-{:?}", a.is_ok(), b.is_ok()),
+                }
+            }
             ["by_name", n] => match unhex(n) {
                 Some(n) => format!("ok {}", enc_opt_usize(t.get_by_name(&n).map(|x| x.id))),
                 None => "bad-op".into(),
@@ -570,6 +619,41 @@ impl RealState {
             _ => "bad-op".into(),
         }
     }
+}
+
+fn gcd(a: i128, b: i128) -> i128 {
+    let (mut a, mut b) = (a.abs(), b.abs());
+    while b != 0 {
+        let t = a % b;
+        a = b;
+        b = t;
+    }
+    a
+}
+/// lowest terms, positive denominator
+fn reduce(num: i128, den: i128) -> (i128, i128) {
+    if den == 0 {
+        return (0, 1);
+    }
+    let g = gcd(num, den).max(1);
+    let (n, d) = (num / g, den / g);
+    if d < 0 { (-n, -d) } else { (n, d) }
+}
+/// 1/2 + 1/3 + ... + 1/n as an exact fraction (`None` when it no longer fits)
+fn harmonic_from_2(n: i128) -> Option<(i128, i128)> {
+    let (mut num, mut den) = (0i128, 1i128);
+    for i in 2..=n {
+        // num/den + 1/i
+        let nn = num.checked_mul(i)?.checked_add(den)?;
+        let dd = den.checked_mul(i)?;
+        let (a, b) = reduce(nn, dd);
+        num = a;
+        den = b;
+        if den > 1_000_000_000_000_000_000_000_000_000_000_000i128 {
+            return None;
+        }
+    }
+    Some((num, den))
 }
 
 /// outcome class of an answer: ok / err / panic / other
